@@ -309,6 +309,55 @@ def Break.chars : Break → List Nat
   | .crlf => [runeCR, runeLF]
   | .lfcr => [runeLF, runeCR]
 
+/-- a body character of a comment that may span lines: it neither ends the comment (`*/` of a `/* */` comment) nor is one of the
+comment's own quote pair (quoted comments count nested pairs; nesting is not rendered) -/
+def OKChar (cty c nxt : Nat) : Prop :=
+  (cty = ccommentTypeSlash → ¬ (c = cMultiplyOp ∧ nxt = cSlashOp)) ∧
+  (cty = ccommentTypeQuoteI → c ≠ cLeftDoubleQuoteI ∧ c ≠ cRightDoubleQuoteI) ∧
+  (cty = ccommentTypeQuoteII → c ≠ cLeftDoubleQuoteII ∧ c ≠ cRightDoubleQuoteII)
+
+instance (cty c nxt : Nat) : Decidable (OKChar cty c nxt) := by unfold OKChar; infer_instance
+
+def BodyOK (cty : Nat) (post : List Nat) : List Nat → Prop
+  | [] => True
+  | c :: r => OKChar cty c ((r ++ post).headD 0) ∧ BodyOK cty post r
+
+def decBodyOK (cty : Nat) (post : List Nat) : (b : List Nat) → Decidable (BodyOK cty post b)
+  | [] => .isTrue trivial
+  | c :: r =>
+    have : Decidable (BodyOK cty post r) := decBodyOK cty post r
+    (inferInstance : Decidable (OKChar cty c ((r ++ post).headD 0) ∧ BodyOK cty post r))
+
+instance (cty : Nat) (post b : List Nat) : Decidable (BodyOK cty post b) := decBodyOK cty post b
+
+/-- a comment that may span lines: `/* … */`, or `注：“…”` / `注：「…」` (optionally with digits after 注) -/
+inductive MCmt where
+  | block (body : List Nat)
+  | quoted (curly : Bool) (digits body : List Nat)
+  deriving Repr, DecidableEq
+
+namespace MCmt
+def pre : MCmt → List Nat
+  | block _ => [cSlashOp, cMultiplyOp]
+  | quoted curly ds _ => cCharZHU :: (ds ++ [cColon, if curly then cLeftDoubleQuoteII else cLeftDoubleQuoteI])
+def body : MCmt → List Nat
+  | block b => b
+  | quoted _ _ b => b
+def suf : MCmt → List Nat
+  | block _ => [cMultiplyOp, cSlashOp]
+  | quoted curly _ _ => [if curly then cRightDoubleQuoteII else cRightDoubleQuoteI]
+def chars (c : MCmt) : List Nat := c.pre ++ (c.body ++ c.suf)
+/-- the scanner's comment type -/
+def cty : MCmt → Nat
+  | block _ => ccommentTypeSlash
+  | quoted curly _ _ => if curly then ccommentTypeQuoteII else ccommentTypeQuoteI
+def WF (c : MCmt) : Prop :=
+  (∀ x ∈ c.body, x ≠ 0) ∧ BodyOK c.cty c.suf c.body ∧
+  (match c with | block _ => True | quoted _ ds _ => ∀ d ∈ ds, isPureNumber d = true)
+instance (c : MCmt) : Decidable c.WF := by
+  cases c <;> unfold WF <;> infer_instance
+end MCmt
+
 /-- an element of a text -/
 inductive El where
   /-- a token -/
@@ -320,6 +369,8 @@ inductive El where
   /-- a text literal written verbatim (`Verbatim`: own quotes balanced, no back-tick, no NUL) — it may contain line breaks, and
   then is ONE token that spans lines -/
   | lit (q : Quote) (t : List Nat)
+  /-- a comment that may span lines: ONE comment token; every line break inside adds a line to the table -/
+  | mcmt (c : MCmt)
   deriving Repr, DecidableEq
 
 def El.chars (ind : Indent) : El → List Nat
@@ -327,6 +378,7 @@ def El.chars (ind : Indent) : El → List Nat
   | .ws c => [c]
   | .br b k => b.chars ++ units ind k
   | .lit q t => q.opener :: (t ++ [q.closer])
+  | .mcmt c => c.chars
 
 def renderEls (ind : Indent) : List El → List Nat
   | [] => []
@@ -341,6 +393,8 @@ def elToks (ind : Indent) (pos : Nat) : List El → List Token
   | .tok it :: es => it.token pos :: elToks ind (pos + it.spelling.length) es
   | .lit q t :: es =>
     { type := q.type, literal := t, startIdx := pos, endIdx := pos + (t.length + 2) } :: elToks ind (pos + (t.length + 2)) es
+  | .mcmt c :: es =>
+    { type := cTypeComment, startIdx := pos, endIdx := pos + c.chars.length } :: elToks ind (pos + c.chars.length) es
   | e :: es => elToks ind (pos + (e.chars ind).length) es
 
 def docTokens (ind : Indent) (k0 : Nat) (els : List El) : List Token := elToks ind (ind.width * k0) els
@@ -364,6 +418,10 @@ def elLines (ind : Indent) (pos s k : Nat) : List El → List LineInfo
     (litLines s k (Lines.lineStarts (pos + 1) t)).1 ++
       elLines ind (pos + (t.length + 2)) (litLines s k (Lines.lineStarts (pos + 1) t)).2.1
         (litLines s k (Lines.lineStarts (pos + 1) t)).2.2 es
+  | .mcmt c :: es =>
+    (litLines s k (Lines.lineStarts (pos + c.pre.length) c.body)).1 ++
+      elLines ind (pos + c.chars.length) (litLines s k (Lines.lineStarts (pos + c.pre.length) c.body)).2.1
+        (litLines s k (Lines.lineStarts (pos + c.pre.length) c.body)).2.2 es
   | e :: es => elLines ind (pos + (e.chars ind).length) s k es
 
 def docLines (ind : Indent) (k0 : Nat) (els : List El) : List LineInfo := elLines ind (ind.width * k0) 0 k0 els
@@ -377,6 +435,7 @@ theorem elLines_ne (ind : Indent) (pos s k : Nat) (els : List El) : elLines ind 
     | ws c => simp only [elLines]; exact ih _ _ _
     | br b k' => simp [elLines]
     | lit q t => simp only [elLines]; intro h; exact ih _ _ _ (List.append_eq_nil_iff.mp h).2
+    | mcmt c => simp only [elLines]; intro h; exact ih _ _ _ (List.append_eq_nil_iff.mp h).2
 
 /-- **the layout the text determines** -/
 def docLayout (ind : Indent) (k0 : Nat) (els : List El) : Layout :=
@@ -447,6 +506,7 @@ def WFEls (ind : Indent) : List El → Prop
   | .ws c :: es => isWhiteSpace c = true ∧ WFEls ind es
   | .br b k :: es => PairOK b (units ind k ++ renderEls ind es) ∧ IndentOK ind k (renderEls ind es) ∧ WFEls ind es
   | .lit q t :: es => Literal.Verbatim q t ∧ WFEls ind es
+  | .mcmt c :: es => c.WF ∧ WFEls ind es
 
 instance (q : Quote) (t : List Nat) : Decidable (Literal.Verbatim q t) := by unfold Literal.Verbatim; infer_instance
 
@@ -464,6 +524,9 @@ def decWFEls (ind : Indent) : (es : List El) → Decidable (WFEls ind es)
   | .lit q t :: es =>
     have : Decidable (WFEls ind es) := decWFEls ind es
     (inferInstance : Decidable (Literal.Verbatim q t ∧ WFEls ind es))
+  | .mcmt c :: es =>
+    have : Decidable (WFEls ind es) := decWFEls ind es
+    (inferInstance : Decidable (c.WF ∧ WFEls ind es))
 
 instance (ind : Indent) (es : List El) : Decidable (WFEls ind es) := decWFEls ind es
 
